@@ -58,6 +58,57 @@ Theorem C18_parquet_no_read_ahead : forall (A : Type) cs (file cache : list (lis
 Proof. exact @parquet_no_read_ahead. Qed.
 Print Assumptions C18_parquet_no_read_ahead.
 
+(* ---------------- creation on a pool of w workers (multiprocessing write loop) ---------------- *)
+(* the slices requested from the source are the same for every number of workers ... *)
+Theorem C18_pool_requests_worker_independent : forall w n cs, map fst (pool_steps w n cs) = slices n cs.
+Proof. exact pool_requests_worker_independent. Qed.
+Print Assumptions C18_pool_requests_worker_independent.
+
+(* ... hence consecutive, covering every record once, at most cs long, for every w *)
+Theorem C18_pool_requests_spec : forall w n cs, 1 <= cs ->
+  concat (map range (map fst (pool_steps w n cs))) = seq 0 n /\
+  Forall (fun se => 1 <= slice_len se <= cs /\ snd se <= n) (map fst (pool_steps w n cs)).
+Proof. exact pool_requests_spec. Qed.
+Print Assumptions C18_pool_requests_spec.
+
+(* every requested slice is divided among exactly w tasks, nothing more is handed to the pool *)
+Theorem C18_pool_tasks_partition : forall w n cs, 1 <= w ->
+  Forall (fun st => length (snd st) = w /\ fold_right Nat.add 0 (snd st) = slice_len (fst st))
+         (pool_steps w n cs).
+Proof. exact pool_tasks_partition. Qed.
+Print Assumptions C18_pool_tasks_partition.
+
+(* any effective chunk size above the configured one breaks the bound as soon as the source is longer than a chunk;
+   a smaller one keeps the statement (it is then only a difference from the model) *)
+Theorem C18_larger_chunk_refuted : forall n cs cs', cs < cs' -> cs < n ->
+  exists se, In se (slices n cs') /\ cs < slice_len se.
+Proof. exact larger_chunk_refuted. Qed.
+Print Assumptions C18_larger_chunk_refuted.
+
+Theorem C18_smaller_chunk_ok : forall n cs cs', 1 <= cs' <= cs ->
+  concat (map range (slices n cs')) = seq 0 n /\
+  Forall (fun se => 1 <= slice_len se <= cs /\ snd se <= n) (slices n cs').
+Proof. exact smaller_chunk_ok. Qed.
+Print Assumptions C18_smaller_chunk_ok.
+
+(* in particular a chunk size rounded up to a multiple of the worker count: harmless exactly when w divides cs *)
+Theorem C18_pool_rounded_refuted : forall w n cs, 1 <= w -> cs mod w <> 0 -> cs < n ->
+  exists st, In st (pool_steps_rounded w n cs) /\ cs < slice_len (fst st).
+Proof. exact pool_rounded_refuted. Qed.
+Print Assumptions C18_pool_rounded_refuted.
+
+Theorem C18_pool_rounded_same : forall w n cs, 1 <= w -> cs mod w = 0 ->
+  pool_steps_rounded w n cs = pool_steps w n cs.
+Proof. exact pool_rounded_same. Qed.
+Print Assumptions C18_pool_rounded_same.
+
+Example C18_pool_concrete :
+  pool_steps 3 10 4 = [((0,4),[2;1;1]); ((4,8),[2;1;1]); ((8,10),[1;1;0])]
+  /\ map fst (pool_steps_rounded 3 10 4) = [(0,6); (6,10)]
+  /\ c18_pool_case 3 10 4 2 [[(0,4);(4,8);(8,10)]; [(0,4);(4,8);(8,10)]] [[2;1;1];[2;1;1];[1;1;0]] = 0
+  /\ c18_pool_case 3 10 4 2 [[(0,4);(4,8);(8,10)]; [(0,6);(6,10)]] [[2;2;2];[2;1;1]] = 11.
+Proof. vm_compute. repeat split; reflexivity. Qed.
+
 Example C18_parquet_concrete :
   parquet_load_trace 4 [[1;2;3];[4;5;6];[7;8;9];[10]] = [2; 1; 1]
   /\ parquet_buffer_trace 4 [[1;2;3];[4;5;6];[7;8;9];[10]] = [6; 5; 2]
